@@ -648,7 +648,7 @@ def _tasks(tier):
 def _domain(tier):
     th = tier == "thorough"
     return (
-        "%d multipart bodies (CRLF framing; 0 parts; one field of %s bytes; field/file mixes; 6 small parts; "
+        "%d multipart bodies (CRLF framing; 0 parts; one field of %s bytes; field/file mixes; 220-byte uploads next to small fields; 6 small parts; "
         "body-less parts; multi-line field; runs of 24 CR / LF / CRLF / '-' as field and as file; a 97-byte extra "
         "header; 60-byte preamble; boundary look-alikes followed by a long line; 37-byte boundary; 4 bodies without "
         "any delimiter%s) + 5 urlencoded bodies; parse_form_data%s: max_form_memory_size in {None, Fmax-1, Fmax, "
